@@ -42,6 +42,7 @@ try:
             print("   ", l[:260])
 finally:
     sh("git -C /repo checkout -- .")
+    sh("python3 %s/tools/rs2v.py --repo /repo --out %s/coq/Gen" % (V, V))    # the generated files follow the restored tree again
     sh("rm -rf /tmp/seed_ev_*")
 print(json.dumps(res)[:3000])
 if keep:
